@@ -14,6 +14,8 @@ struct Cache<'a>(&'a Vec<Option<Value<'a>>>);
 
 impl Document for Cache<'_> {
     fn find(&self, key: &str) -> Option<Value> {
+        #[cfg(feature = "verif")]
+        crate::verif::hit(crate::verif::Arm::CACHE_FIND);
         let i = key.chars().nth(0).expect("could not get key") as u32;
         self.0[i as usize].clone()
     }
@@ -23,6 +25,8 @@ struct Passthrough<'a>(Option<Value<'a>>);
 
 impl Document for Passthrough<'_> {
     fn find(&self, _: &str) -> Option<Value> {
+        #[cfg(feature = "verif")]
+        crate::verif::hit(crate::verif::Arm::PASSTHROUGH_FIND);
         self.0.clone()
     }
 }
@@ -58,6 +62,8 @@ pub(crate) fn solve_expression(
 ) -> SolverResult {
     match *expression {
         Expression::BooleanGroup(BoolSym::And, ref group) => {
+            #[cfg(feature = "verif")]
+            crate::verif::hit(crate::verif::Arm::SOLVE_GROUP_AND);
             for expression in group {
                 match solve_expression(expression, identifiers, document) {
                     SolverResult::True => {}
@@ -68,6 +74,8 @@ pub(crate) fn solve_expression(
             SolverResult::True
         }
         Expression::BooleanGroup(BoolSym::Or, ref group) => {
+            #[cfg(feature = "verif")]
+            crate::verif::hit(crate::verif::Arm::SOLVE_GROUP_OR);
             let mut res = SolverResult::Missing;
             for expression in group {
                 match solve_expression(expression, identifiers, document) {
@@ -86,6 +94,8 @@ pub(crate) fn solve_expression(
                     BoolSym::Equal,
                     Expression::Cast(right, ModSym::Str),
                 ) => {
+                    #[cfg(feature = "verif")]
+                    crate::verif::hit(crate::verif::Arm::SOLVE_CMP_STR_STR);
                     let x = match document.find(left) {
                         Some(x) => x,
                         None => {
@@ -127,6 +137,8 @@ pub(crate) fn solve_expression(
                     }
                 }
                 (Expression::Field(left), BoolSym::Equal, Expression::Boolean(b)) => {
+                    #[cfg(feature = "verif")]
+                    crate::verif::hit(crate::verif::Arm::SOLVE_CMP_BOOL);
                     let x = match document.find(left) {
                         Some(x) => x,
                         None => {
@@ -151,6 +163,8 @@ pub(crate) fn solve_expression(
                     }
                 }
                 (Expression::Field(left), BoolSym::Equal, Expression::Null) => {
+                    #[cfg(feature = "verif")]
+                    crate::verif::hit(crate::verif::Arm::SOLVE_CMP_NULL);
                     let x = match document.find(left) {
                         Some(x) => x,
                         None => {
@@ -173,6 +187,8 @@ pub(crate) fn solve_expression(
                 | BoolSym::GreaterThanOrEqual
                 | BoolSym::LessThan
                 | BoolSym::LessThanOrEqual => {
+                    #[cfg(feature = "verif")]
+                    crate::verif::hit(crate::verif::Arm::SOLVE_CMP_NUM);
                     let x = match left.as_ref() {
                         Expression::Field(f) => {
                             let i = match document.find(f) {
@@ -535,6 +551,8 @@ pub(crate) fn solve_expression(
                     }
                 }
                 BoolSym::And => {
+                    #[cfg(feature = "verif")]
+                    crate::verif::hit(crate::verif::Arm::SOLVE_BIN_AND);
                     let x = match solve_expression(left, identifiers, document) {
                         SolverResult::True => (true, false),
                         SolverResult::False => return SolverResult::False,
@@ -560,6 +578,8 @@ pub(crate) fn solve_expression(
                     }
                 }
                 BoolSym::Or => {
+                    #[cfg(feature = "verif")]
+                    crate::verif::hit(crate::verif::Arm::SOLVE_BIN_OR);
                     let x = match solve_expression(left, identifiers, document) {
                         SolverResult::True => return SolverResult::True,
                         SolverResult::False => (false, false),
@@ -600,6 +620,8 @@ pub(crate) fn solve_expression(
                 Expression::BooleanGroup(ref o, ref g) => (o, g),
                 _ => return match_all(e, identifiers, document),
             };
+            #[cfg(feature = "verif")]
+            crate::verif::hit(crate::verif::Arm::SOLVE_ALL_GROUP);
             for expression in group {
                 match solve_expression(expression, identifiers, document) {
                     SolverResult::True => {}
@@ -621,6 +643,8 @@ pub(crate) fn solve_expression(
                 Expression::BooleanGroup(ref o, ref g) => (o, g),
                 _ => return match_of(e, identifiers, document, c),
             };
+            #[cfg(feature = "verif")]
+            crate::verif::hit(crate::verif::Arm::SOLVE_OF_GROUP);
             let mut count = 0;
             let mut res = SolverResult::Missing;
             for expression in group {
@@ -648,6 +672,8 @@ pub(crate) fn solve_expression(
             res
         }
         Expression::Matrix(ref columns, ref rows) => {
+            #[cfg(feature = "verif")]
+            crate::verif::hit(crate::verif::Arm::SOLVE_MATRIX);
             // NOTE: Field and search widths must be the same or tau will panic, for now this is
             // fine as only the optimiser can write this expression, and for those using core it is
             // on them to ensure they don't break this. There are ways to lock this down and it
@@ -676,6 +702,8 @@ pub(crate) fn solve_expression(
                                 }
                             };
                             let _ = std::mem::replace(&mut cache[i], Some(value));
+                            #[cfg(feature = "verif")]
+                            crate::verif::hit(crate::verif::Arm::MATRIX_CACHE_FILL);
                         }
                         match solve_expression(expression, identifiers, &Cache(&cache)) {
                             SolverResult::True => {}
@@ -699,6 +727,8 @@ pub(crate) fn solve_expression(
             res
         }
         Expression::Negate(ref e) => {
+            #[cfg(feature = "verif")]
+            crate::verif::hit(crate::verif::Arm::SOLVE_NEGATE);
             let res = match solve_expression(e.as_ref(), identifiers, document) {
                 SolverResult::True => SolverResult::False,
                 SolverResult::False => SolverResult::True,
@@ -720,6 +750,8 @@ pub(crate) fn solve_expression(
                 Value::Array(a) => {
                     if let Expression::Match(Match::All, expression) = &**e {
                         if let Expression::BooleanGroup(BoolSym::Or, expressions) = &**expression {
+                            #[cfg(feature = "verif")]
+                            crate::verif::hit(crate::verif::Arm::SOLVE_NESTED_ARRAY_ALL_OR);
                             for expression in expressions {
                                 let mut res = SolverResult::Missing;
                                 for v in a.iter() {
@@ -740,6 +772,8 @@ pub(crate) fn solve_expression(
                             }
                             return SolverResult::True;
                         } else if let Expression::Matrix(columns, rows) = &**expression {
+                            #[cfg(feature = "verif")]
+                            crate::verif::hit(crate::verif::Arm::SOLVE_NESTED_ARRAY_ALL_MATRIX);
                             // NOTE: We can't really make use of the optimisations provided by a
                             // matrix here as we have to loop through the array! For that reason we
                             // basically null this optimisation...
@@ -781,6 +815,8 @@ pub(crate) fn solve_expression(
                             return SolverResult::True;
                         }
                     }
+                    #[cfg(feature = "verif")]
+                    crate::verif::hit(crate::verif::Arm::SOLVE_NESTED_ARRAY);
                     for v in a.iter() {
                         if let Some(x) = v.as_object() {
                             if solve_expression(e, identifiers, &x) == SolverResult::True {
@@ -791,6 +827,8 @@ pub(crate) fn solve_expression(
                     SolverResult::False
                 }
                 _ => {
+                    #[cfg(feature = "verif")]
+                    crate::verif::hit(crate::verif::Arm::SOLVE_NESTED_OTHER);
                     debug!(
                         "evaluating false, field is not an array of objects or object for {}",
                         expression
@@ -810,6 +848,8 @@ pub(crate) fn solve_expression(
             let res = match (value, c) {
                 (Value::String(ref x), _) => search(s, x),
                 (Value::Array(a), _) => {
+                    #[cfg(feature = "verif")]
+                    crate::verif::hit(crate::verif::Arm::SOLVE_SEARCH_ARRAY);
                     let mut res = SolverResult::False;
                     for v in a.iter() {
                         if let Some(x) = v.as_str() {
@@ -834,22 +874,32 @@ pub(crate) fn solve_expression(
                     res
                 }
                 (Value::Bool(x), true) => {
+                    #[cfg(feature = "verif")]
+                    crate::verif::hit(crate::verif::Arm::SOLVE_SEARCH_CAST);
                     let x = x.to_string();
                     search(s, x.as_str())
                 }
                 (Value::Float(x), true) => {
+                    #[cfg(feature = "verif")]
+                    crate::verif::hit(crate::verif::Arm::SOLVE_SEARCH_CAST);
                     let x = x.to_string();
                     search(s, x.as_str())
                 }
                 (Value::Int(x), true) => {
+                    #[cfg(feature = "verif")]
+                    crate::verif::hit(crate::verif::Arm::SOLVE_SEARCH_CAST);
                     let x = x.to_string();
                     search(s, x.as_str())
                 }
                 (Value::UInt(x), true) => {
+                    #[cfg(feature = "verif")]
+                    crate::verif::hit(crate::verif::Arm::SOLVE_SEARCH_CAST);
                     let x = x.to_string();
                     search(s, x.as_str())
                 }
                 _ => {
+                    #[cfg(feature = "verif")]
+                    crate::verif::hit(crate::verif::Arm::SOLVE_SEARCH_OTHER);
                     debug!(
                         "evaluating false, field is not an array of strings, or a string for {}",
                         expression
@@ -877,6 +927,8 @@ fn match_all(
     document: &dyn Document,
 ) -> SolverResult {
     if let Expression::Search(Search::AhoCorasick(a, m, _), i, c) = expression {
+        #[cfg(feature = "verif")]
+        crate::verif::hit(crate::verif::Arm::ALL_AHO);
         let value = match document.find(i) {
             Some(v) => v,
             None => {
@@ -949,6 +1001,8 @@ fn match_all(
             }
         }
     } else if let Expression::Search(Search::RegexSet(s, _), i, c) = expression {
+        #[cfg(feature = "verif")]
+        crate::verif::hit(crate::verif::Arm::ALL_REGEX_SET);
         let value = match document.find(i) {
             Some(v) => v,
             None => {
@@ -1049,6 +1103,8 @@ fn match_all(
             }
         }
     } else if let Expression::Matrix(columns, rows) = expression {
+        #[cfg(feature = "verif")]
+        crate::verif::hit(crate::verif::Arm::ALL_MATRIX);
         // NOTE: Field and search widths must be the same or tau will panic, for now this is
         // fine as only the optimiser can write this expression, and for those using core it is
         // on them to ensure they don't break this. There are ways to lock this down and it
@@ -1072,6 +1128,8 @@ fn match_all(
                             }
                         };
                         let _ = std::mem::replace(&mut cache[i], Some(value));
+                        #[cfg(feature = "verif")]
+                        crate::verif::hit(crate::verif::Arm::MATRIX_CACHE_FILL);
                     }
                     match solve_expression(expression, identifiers, &Cache(&cache)) {
                         SolverResult::True => {}
@@ -1093,6 +1151,8 @@ fn match_all(
             }
         }
     } else {
+        #[cfg(feature = "verif")]
+        crate::verif::hit(crate::verif::Arm::ALL_FALLBACK);
         return solve_expression(expression, identifiers, document);
     }
     SolverResult::True
@@ -1106,12 +1166,16 @@ fn match_of(
     count: u64,
 ) -> SolverResult {
     if count == 0 {
+        #[cfg(feature = "verif")]
+        crate::verif::hit(crate::verif::Arm::OF_ZERO);
         return match solve_expression(expression, identifiers, document) {
             SolverResult::True => SolverResult::False,
             SolverResult::False => SolverResult::True,
             SolverResult::Missing => return SolverResult::Missing,
         };
     } else if let Expression::Search(Search::AhoCorasick(a, m, _), i, cast) = expression {
+        #[cfg(feature = "verif")]
+        crate::verif::hit(crate::verif::Arm::OF_AHO);
         let value = match document.find(i) {
             Some(v) => v,
             None => {
@@ -1185,6 +1249,8 @@ fn match_of(
             }
         }
     } else if let Expression::Search(Search::RegexSet(s, _), i, cast) = expression {
+        #[cfg(feature = "verif")]
+        crate::verif::hit(crate::verif::Arm::OF_REGEX_SET);
         let value = match document.find(i) {
             Some(v) => v,
             None => {
@@ -1279,6 +1345,8 @@ fn match_of(
             }
         }
     } else if let Expression::Matrix(columns, rows) = expression {
+        #[cfg(feature = "verif")]
+        crate::verif::hit(crate::verif::Arm::OF_MATRIX);
         // NOTE: Field and search widths must be the same or tau will panic, for now this is
         // fine as only the optimiser can write this expression, and for those using core it is
         // on them to ensure they don't break this. There are ways to lock this down and it
@@ -1304,6 +1372,8 @@ fn match_of(
                             }
                         };
                         let _ = std::mem::replace(&mut cache[i], Some(value));
+                        #[cfg(feature = "verif")]
+                        crate::verif::hit(crate::verif::Arm::MATRIX_CACHE_FILL);
                     }
                     match solve_expression(expression, identifiers, &Cache(&cache)) {
                         SolverResult::True => {}
@@ -1331,6 +1401,8 @@ fn match_of(
         }
         return res;
     } else {
+        #[cfg(feature = "verif")]
+        crate::verif::hit(crate::verif::Arm::OF_FALLBACK);
         return solve_expression(expression, identifiers, document);
     }
     SolverResult::False
@@ -1368,25 +1440,35 @@ fn search(kind: &Search, value: &str) -> SolverResult {
             }
         }
         Search::RegexSet(i, _) => {
+            #[cfg(feature = "verif")]
+            crate::verif::hit(crate::verif::Arm::SEARCH_REGEX_SET);
             if i.is_match(value) {
                 return SolverResult::True;
             }
         }
         Search::AhoCorasick(a, m, _) => {
+            #[cfg(feature = "verif")]
+            crate::verif::hit(crate::verif::Arm::SEARCH_AHO);
             for i in a.find_overlapping_iter(value) {
                 match m[i.pattern()] {
                     MatchType::Contains(_) => return SolverResult::True,
                     MatchType::EndsWith(_) => {
+                        #[cfg(feature = "verif")]
+                        crate::verif::hit(crate::verif::Arm::SEARCH_AHO_ENDS_WITH);
                         if i.end() == value.len() {
                             return SolverResult::True;
                         }
                     }
                     MatchType::Exact(_) => {
+                        #[cfg(feature = "verif")]
+                        crate::verif::hit(crate::verif::Arm::SEARCH_AHO_EXACT);
                         if i.start() == 0 && i.end() == value.len() {
                             return SolverResult::True;
                         }
                     }
                     MatchType::StartsWith(_) => {
+                        #[cfg(feature = "verif")]
+                        crate::verif::hit(crate::verif::Arm::SEARCH_AHO_STARTS_WITH);
                         if i.start() == 0 {
                             return SolverResult::True;
                         }
@@ -1403,6 +1485,8 @@ fn search(kind: &Search, value: &str) -> SolverResult {
 fn slow_aho(a: &AhoCorasick, m: &[MatchType], value: &str) -> u64 {
     // TODO: Benchmark properly to work out whether the bitmap really is better on average
     let len = m.len();
+    #[cfg(feature = "verif")]
+    crate::verif::hit(crate::verif::Arm::SLOW_AHO);
     if len < 64 {
         let mut map = 0;
         for i in a.find_overlapping_iter(value) {
